@@ -203,6 +203,7 @@ func (fi *File) Type() NodeType {
 func (fi *File) Mode() (os.FileMode, error) {
 	fi.nodeLock.RLock()
 	defer fi.nodeLock.RUnlock()
+	verifSched("File.Mode:rlocked")
 
 	nd, err := fi.GetNode()
 	if err != nil {
@@ -244,6 +245,7 @@ func (fi *File) SetMode(mode os.FileMode) error {
 func (fi *File) ModTime() (time.Time, error) {
 	fi.nodeLock.RLock()
 	defer fi.nodeLock.RUnlock()
+	verifSched("File.ModTime:rlocked")
 
 	nd, err := fi.GetNode()
 	if err != nil {
